@@ -633,6 +633,11 @@ func shiftsFloat32BitsBy(info *types.Info, f *fn, want int64) bool {
 
 // singleInit returns the initialiser of a local that is defined once and never reassigned, nil otherwise.
 func singleInit(info *types.Info, f *fn, obj types.Object) ast.Expr {
+	return singleInitOpt(info, f, obj, false)
+}
+
+// singleInitOpt: with allowAddr the variable may have its address taken (the caller accepts writes through it).
+func singleInitOpt(info *types.Info, f *fn, obj types.Object, allowAddr bool) ast.Expr {
 	if obj == nil {
 		return nil
 	}
@@ -663,7 +668,7 @@ func singleInit(info *types.Info, f *fn, obj types.Object) ast.Expr {
 				}
 			}
 		case *ast.UnaryExpr:
-			if s.Op == token.AND && objOf(info, s.X) == obj {
+			if s.Op == token.AND && objOf(info, s.X) == obj && !allowAddr {
 				writes += 2
 			}
 		}
